@@ -135,6 +135,8 @@ STUB_SETS = {
     "rows1": ["crate::draw_target::visual_line_count, crate::draw_target::verif_rig_dt::rows_are_lines",
               "crate::draw_target::DrawState::visual_line_count, crate::draw_target::verif_rig_dt::ds_rows_are_lines"],
     "multidrawrec": ["crate::multi::MultiState::draw, crate::multi::verif_rig_multi::record_multi_draw"],
+    "pbfinishrec": ["crate::progress_bar::ProgressBar::is_finished, crate::progress_bar::verif_rig_pb::rec_is_finished",
+                    "crate::progress_bar::ProgressBar::finish_using_style, crate::progress_bar::verif_rig_pb::rec_finish_using_style"],
     "noremove": ["crate::multi::MultiState::remove_idx, crate::multi::verif_rig_multi::record_remove_idx"],
     "lineclone": ["<crate::draw_target::LineType as std::clone::Clone>::clone, crate::draw_target::verif_rig_dt::clone_one_letter_line"],
     "nofloat": ["<f32 as std::fmt::Display>::fmt, crate::verif_common::fmt_f32_marker",
